@@ -272,13 +272,13 @@ def r4(ctx):
     ctx.check("ExecutionManager::process_open_timeout", ok,
               "an open timeout is reported as a failed (inactive, Timeout) snapshot of the request's own order", got=r[:400], key="event")
     cr = ctx.fbody(name="process_cancel_response", self_adt=EM, trait="")
-    oks = [render(t) for g, t, bi in cr.local_cases(0) if render(t).startswith("Result::Ok")]
+    oks = [render(t) for g, t, bi in cr.expanded_cases(0) if render(t).startswith("Result::Ok")]
     idx = "Try::branch(AccountEventIndexer::order_response_cancel(self.indexer, order)).as:Continue.0"
     ctx.check("ExecutionManager::process_cancel_response", oks == [
         "Result::Ok{0: Event::Item{0: AccountEvent::AccountEvent{exchange: %s.key.exchange, kind: AccountEventKind::OrderCancelled{0: %s}}}}" % (idx, idx)],
         "the client's cancel response is indexed and attributed to its own key's exchange", got=oks, key="event")
     orr = ctx.fbody(name="process_open_response", self_adt=EM, trait="")
-    cases = common.expand_phi_cases(orr, [c for c in orr.local_cases(0) if render(c[1]).startswith("Result::Ok")])
+    cases = common.expand_phi_cases(orr, [c for c in orr.expanded_cases(0) if render(c[1]).startswith("Result::Ok")])
     tab = {}
     for g, term, bi in cases:
         for conj in g:
@@ -304,9 +304,9 @@ def r4(ctx):
                                         (k == "state=Err" and "order_error(self.indexer, order.state.as:Err.0)" in norm[k]) for k in want)
     ctx.check("ExecutionManager::process_open_response", ok,
               "Ok(open) with nothing remaining -> fully filled; Ok(open) -> active; Err -> inactive(error)", got=norm, want=want, key="table")
-    r = [render(t) for g, t, bi in orr.local_cases(0) if render(t).startswith("Result::Ok")]
+    r = [render(t) for g, t, bi in orr.expanded_cases(0) if render(t).startswith("Result::Ok")]
     key = "Try::branch(AccountEventIndexer::order_key(self.indexer, order.key)).as:Continue.0"
-    ctx.check("ExecutionManager::process_open_response", len(r) == 1 and ("exchange: %s.exchange" % key) in r[0] and ("key: %s, side: order.side, price: order.price, quantity: order.quantity" % key) in r[0],
+    ctx.check("ExecutionManager::process_open_response", len(r) >= 1 and all(("exchange: %s.exchange" % key) in x and ("key: %s, side: order.side, price: order.price, quantity: order.quantity" % key) in x for x in r),
               "the response is attributed to the indexed key of the responded order itself", got=[x[:300] for x in r], key="attribution")
 
 
